@@ -3,6 +3,7 @@ import OtelVerif.Lemmas.C20
 import OtelVerif.Lemmas.C20Mon
 import OtelVerif.Lemmas.C20Bridge
 import OtelVerif.Lemmas.C20Expand
+import OtelVerif.Lemmas.C20Safe
 /-!
 # C20 — collector run loop: one live service at a time, orderly reload, ends Closed
 
@@ -165,7 +166,7 @@ theorem C20_failed_bringup_end_state (v : Variant) (s : S) (h : Reachable v s) (
 
 /-! ## Shutdown() is safe, idempotent, and (repaired code) never lost -/
 
-/-- one complete `Shutdown()` call: read the state; if the guard passes, `close(shutdownChan)` (recovered if already closed) -/
+/-- one complete `Shutdown()` call: read the state; if the guard passes, `close(shutdownChan)` (`closeStep`) -/
 def doCall (v : Variant) (s : S) : Option S :=
   (fire v s .call).bind (fun s1 => if s1.closers > s.closers then fire v s1 .close else some s1)
 
@@ -173,24 +174,51 @@ def doCall (v : Variant) (s : S) : Option S :=
 def S.ext (s : S) : Core × Bool × Nat × Bool × Nat × Nat × Nat × Nat × Nat × Bool :=
   (s.core, s.chanClosed, s.closers, s.ctxDone, s.nWatchOk, s.nWatchErr, s.nHup, s.nTerm, s.nAsync, s.errs)
 
-/-- safe from any state and any goroutine: a call is enabled in EVERY state (reachable or not), it never blocks
-and never panics (the model of `close` on a closed channel is the recovered no-op), and it touches nothing but
-the shutdown channel -/
+/-- **Regenerated shape fact** (translator `shutdownshape`, re-extracted from `otelcol/*.go` on every run): every
+`close(<x>.shutdownChan)` is under a deferred `recover()` in the same function or inside `sync.Once.Do`. This is the mechanism
+that makes a second, concurrent close safe; a non-atomic "peek, then close" is not one. If the source loses it, this
+obligation — and with it `C20_shutdown_safe`, `C20_no_caller_panic` — no longer checks. -/
+theorem C20_close_is_recovered : Gen.ShutdownShape.closeRecovered = true := by decide
+
+/-- safe from any state and any goroutine: a call is enabled in EVERY state (reachable or not), it never blocks,
+it touches nothing but the shutdown channel, and it does not panic in the caller — the last because the `close` is
+protected (`C20_close_is_recovered`): guard read and close are two steps, so the channel may have been closed by
+another caller in between (`closeStep`) -/
 theorem C20_shutdown_safe (v : Variant) (s : S) :
-    ∃ s', doCall v s = some s' ∧ s'.core = s.core ∧ s'.closers = s.closers ∧ (s.chanClosed = true → s'.chanClosed = true) := by
-  by_cases hh : v.honours s.st = true <;> simp [doCall, fire, S.emit, hh, S.core]
+    ∃ s', doCall v s = some s' ∧ s'.core = s.core ∧ s'.closers = s.closers ∧ (s.chanClosed = true → s'.chanClosed = true) ∧
+      s'.callerPanic = s.callerPanic := by
+  have hrec := C20_close_is_recovered
+  by_cases hh : v.honours s.st = true <;> simp [doCall, fire, S.emit, hh, S.core, closeStep, hrec]
+
+/-- **any goroutine, any number of them, concurrently**: in every reachable state — in particular after several callers
+have passed the guard before any of them closed (`closers ≥ 2`), in any interleaving with the Run goroutine — no
+`Shutdown()` call has panicked in its caller's goroutine. Depends on the regenerated `C20_close_is_recovered`. -/
+theorem C20_no_caller_panic (v : Variant) (s : S) (h : Reachable v s) : s.callerPanic = false := by
+  obtain ⟨ls, h⟩ := h
+  have := callerPanic_runFrom v C20_close_is_recovered ls h
+  simpa [init] using this
+
+/-- the mechanism is necessary: with an unprotected `close` (`recovered = false`), of two callers that are both past the
+guard the one that closes second panics — whatever the state, whoever goes first -/
+theorem C20_double_close_needs_recover (s : S) : (closeStep false (closeStep false s)).callerPanic = true := by
+  simp [closeStep]
+
+/-- non-vacuity of `C20_no_caller_panic`: two callers past the guard at once is reachable (Running, two `call`s, then both
+`close`), and the second close does find the channel closed -/
+example : (run .fixed [.begin, .step true, .step true, .step true, .step true, .call, .call, .close]).map
+    (fun s => (s.closers, s.chanClosed, s.callerPanic)) = some (1, true, false) := by decide
 
 /-- idempotent: two calls in a row leave the same state as one call -/
 theorem C20_shutdown_idempotent (v : Variant) (s : S) :
     ((doCall v s).bind (doCall v)).map S.ext = (doCall v s).map S.ext := by
-  by_cases hh : v.honours s.st = true <;> simp [doCall, fire, S.emit, hh, S.ext, S.core]
+  by_cases hh : v.honours s.st = true <;> simp [doCall, fire, S.emit, hh, S.ext, S.core, closeStep]
 
 /-- once the channel is closed, or in state Closed, a call changes nothing -/
 theorem C20_shutdown_noop_when_closed (v : Variant) (s : S) (h : s.chanClosed = true ∨ s.st = .closed) :
     (doCall v s).map S.ext = some s.ext := by
   by_cases hh : v.honours s.st = true
   · rcases h with h | h
-    · simp [doCall, fire, S.emit, hh, S.ext, S.core, h]
+    · simp [doCall, fire, S.emit, hh, S.ext, S.core, h, closeStep]
     · cases v <;> simp [Variant.honours, h] at hh
   · simp [doCall, fire, S.emit, hh, S.ext, S.core]
 
